@@ -115,6 +115,11 @@ def gen_input_value(draw, spec, t, depth=0, boundary=False, allow_null=True):
     if allow_null and draw(st.integers(0, 7)) == 0:
         return None
     if t[0] == "list":
+        if nullable(t[1])[0] != "list" and draw(st.integers(0, 6)) == 0:
+            # a single value where a list is expected stands for the list of that value (inline and through variables alike)
+            v = gen_input_value(draw, spec, t[1], depth + 1, boundary, False)
+            if v is not None and not isinstance(v, list):
+                return v
         return [gen_input_value(draw, spec, t[1], depth + 1, boundary) for _ in range(draw(st.integers(0, 2)))]
     n = t[1]
     if n == "Int":
@@ -125,7 +130,7 @@ def gen_input_value(draw, spec, t, depth=0, boundary=False, allow_null=True):
         return draw(st.sampled_from([0.0, 1.5, -2.25, 1e-07, 3.0, 1e20]))
     if n in ("String", "ID"):
         return draw(st.sampled_from(["", "a", "x y", "é", "q\"uote", "1.50", "line\nbreak", "back\\slash", "tab\tff\x0c", "sep\u2028\u0085x",
-                                     "12", "12\n", "007", "-3"]))   # digit strings: IDs are printed as integer literals when they look like one
+                                     "12", "12\n", "007", "-3", "\u0661\u0662", "\uff14\uff12", "-\u0663", "\u00b2"]))   # ... also digits that are not 0-9   # digit strings: IDs are printed as integer literals when they look like one
     if n == "Boolean":
         return draw(st.booleans())
     k = spec.kind(n)
@@ -229,6 +234,10 @@ def specs(draw, rich=True, with_mutation=None, with_subscription=False, max_obje
         perm = draw(st.permutations(range(3)))   # the same internal value names different members in different schemas
         for i, v in enumerate(vals):
             v["value"] = {"name": v["name"], "int": 10 + perm[i], "str": "internal-%d" % perm[i], "bool": perm[i] % 2 == 0}[v["value"]]
+        if len(vals) >= 2 and draw(st.integers(0, 3)) == 0:
+            # a legacy mapping: every member's python value is spelled like the NEXT member's name (UP = "DOWN", DOWN = "UP")
+            for i, v in enumerate(vals):
+                v["value"] = vals[(i + 1) % len(vals)]["name"]
         types[e] = {"kind": "enum", "name": e, "values": vals, "desc": draw(_DESC)}
     leaf_in = BUILTIN_SCALARS + scalars + enums
     # input objects (may reference each other / themselves through nullable or list positions)
